@@ -56,6 +56,7 @@ class LeanStatus:
     def __init__(self):
         self.translate_ok = True
         self.translate_msg = ""
+        self.leanchecker = None
         self.driver_ok = False
         self.build_log = ""
         self.obligations: list[dict] = []  # {name, file, status, axioms}
@@ -118,7 +119,7 @@ def lean_sources() -> list[Path]:
     return sorted((LEAN / "GroupbyVerif").rglob("*.lean")) + [LEAN / "Driver.lean"]
 
 
-def prepare_lean(prop_modules: list[str], bridge: bool = True) -> LeanStatus:
+def prepare_lean(prop_modules: list[str], bridge: bool = True, recheck: bool = False) -> LeanStatus:
     """regenerate Generated/*.lean from /repo, build the property modules and the driver,
     audit axioms.  Serialised across concurrent checks by a file lock."""
     st = LeanStatus()
@@ -190,6 +191,14 @@ def prepare_lean(prop_modules: list[str], bridge: bool = True) -> LeanStatus:
                         o["status"] = "audit-missing"
                     elif not set(ax) <= ALLOWED_AXIOMS:
                         o["status"] = "bad-axioms"
+        if recheck:
+            # thorough tier: the toolchain's independent re-checker replays the compiled declarations of the property modules
+            built_mods = [m for m, p_ in files if (LEAN / ".lake/build/lib/lean" / (m.replace(".", "/") + ".olean")).exists() and m not in failed_modules]
+            if built_mods:
+                rc3, out3 = sh(["lake", "env", "leanchecker", *built_mods], cwd=LEAN, timeout=3600)
+                st.leanchecker = {"modules": built_mods, "ok": rc3 == 0, "tail": out3.strip()[-400:]}
+                if rc3 != 0:
+                    st.obligations.append({"name": "leanchecker", "file": "lean/", "status": "failed", "axioms": None, "detail": out3.strip()[-400:]})
         st.forbidden_hits = scan_forbidden(lean_sources())
         for h in st.forbidden_hits:
             st.obligations.append({"name": f"forbidden-token {h}", "file": h.split(":")[0], "status": "failed", "axioms": None})
